@@ -339,6 +339,39 @@ struct Dumper {
     } else if (auto *GEP = dyn_cast<GetElementPtrInst>(&I)) {
       OS << ",\"src_ty\":" << q(tyStr(GEP->getSourceElementType()));
       OS << ",\"inbounds\":" << (GEP->isInBounds() ? "true" : "false");
+      // array steps: [array length, constant index or null] for every index that subscripts an array type
+      OS << ",\"arr_idx\":[";
+      {
+        bool firstA = true;
+        Type *Cur = GEP->getSourceElementType();
+        for (unsigned k = 1; k < GEP->getNumOperands(); k++) {
+          Value *Idx = GEP->getOperand(k);
+          if (k == 1)
+            continue;   // pointer step: unbounded
+          if (auto *ST = dyn_cast<StructType>(Cur)) {
+            auto *CI = dyn_cast<ConstantInt>(Idx);
+            if (!CI)
+              break;
+            Cur = ST->getElementType(CI->getZExtValue());
+            continue;
+          }
+          if (auto *AT = dyn_cast<ArrayType>(Cur)) {
+            if (!firstA)
+              OS << ",";
+            firstA = false;
+            OS << "[" << AT->getNumElements() << ",";
+            if (auto *CI = dyn_cast<ConstantInt>(Idx))
+              OS << CI->getSExtValue();
+            else
+              OS << "null";
+            OS << "]";
+            Cur = AT->getElementType();
+            continue;
+          }
+          break;
+        }
+      }
+      OS << "]";
       unsigned BW = DL.getIndexSizeInBits(GEP->getPointerAddressSpace());
       MapVector<Value *, APInt> VarOffs;
       APInt COff(BW, 0);
